@@ -1,4 +1,5 @@
 import Hcl.Proofs.Region
+import Hcl.Proofs.LexSpans
 import Hcl.Generated
 
 /-!
@@ -63,3 +64,17 @@ theorem C14_region_y86 (U name : Bytes) (s e : Nat) (r : Bytes) (hU : Yo.validUt
       (Generated.preambleBytes.length + e) = .ok r :=
   C14_region _ U name s e r (Or.inr C14_preamble_ends_line)
     (Yo.validUtf8_append _ _ _ (Nat.le_refl _) C14_preamble_utf8 hU) hspec
+
+/-! ### the spans of the tokens -/
+
+/-- **C14, token spans**: for every input and every classification of its characters, the spans the lexer attaches to
+    its tokens are byte ranges of the input, each non-empty, in increasing order and not overlapping -- so a span taken
+    from a token (or stretching from one token to a later one) always denotes a piece of the text that was read -/
+theorem C14_token_spans (cls : Lexer.CharCls) (input : List Char) :
+    Lexer.SpansFrom (Lexer.sizeOf' input) 0 (Lexer.lex cls input) :=
+  Lexer.lex_spans cls input
+
+/-- what the statement says about two consecutive tokens -/
+example (total lo s₁ e₁ s₂ e₂ : Nat) (t₁ t₂ : Lexer.Tok) (rest : List Lexer.Item)
+    (h : Lexer.SpansFrom total lo (.tok s₁ t₁ e₁ :: .tok s₂ t₂ e₂ :: rest)) :
+    lo ≤ s₁ ∧ s₁ < e₁ ∧ e₁ ≤ s₂ ∧ s₂ < e₂ ∧ e₂ ≤ total := ⟨h.1, h.2.1, h.2.2.2.1, h.2.2.2.2.1, h.2.2.2.2.2.1⟩
